@@ -175,7 +175,34 @@ def s3(ctx, rep):
     resv = resv[0] if len(resv) == 1 else "?"
     app = [(n.id, x) for n in cfg.nodes for x in cfg.node_walk(n.id) if isinstance(x, ast.Call) and fn_name(x) == "append" and U(x.func.value) == resv]
     ok = len(app) == 1
-    if ok:
+    # the other way to keep the first of each and the order of first appearance: a dict from the duplicate key to the configuration,
+    # filled only for keys not yet in it, whose values are returned (dicts keep insertion order)
+    rvals = [r.value for r in returns_of(f)]
+    dname = None
+    if not app and len(rvals) == 1 and isinstance(rvals[0], ast.Call) and fn_name(rvals[0]) == "list" and len(rvals[0].args) == 1 \
+            and isinstance(rvals[0].args[0], ast.Call) and fn_name(rvals[0].args[0]) == "values" and isinstance(rvals[0].args[0].func.value, ast.Name):
+        dname = rvals[0].args[0].func.value.id
+    if dname is not None:
+        from .common import dom_guard
+        from ..engine import deref as _dr
+        stores = [n for n in cfg.nodes if n.kind == "stmt" and isinstance(n.ast, ast.Assign) and isinstance(n.ast.targets[0], ast.Subscript)
+                  and U(n.ast.targets[0].value) == dname]
+        loop = [n for n in cfg.nodes if n.kind == "for"]
+        fresh = any(isinstance(d, (ast.Dict, ast.Call)) and U(d) in ("{}", "dict()") for d in local_defs(f, dname) if not isinstance(d, tuple))
+        ok = fresh and len(stores) == 1 and len(loop) == 1 and U(loop[0].ast.iter) == "points_to_evaluate"
+        if ok:
+            key = U(stores[0].ast.targets[0].slice)
+            ok = any(a[0] == "in" and a[3] is False and a[1] == key and a[2] == dname for a in dom_guard(ctx, f, stores[0].id))
+        rep.put(ok, "S3", "guarded_by", "impute_points_to_evaluate: appended in input order, only if not seen, and recorded as seen", f, None, "",
+                "duplicates among the initial configurations are not removed, or the order is not the given one")
+        if ok:
+            stored = _dr(f, stores[0].ast.value)
+            kx = _dr(f, stores[0].ast.targets[0].slice)
+            okk = isinstance(kx, ast.Call) and fn_name(kx) == "_to_tuple" and argn(kx, 0) is not None and U(_dr(f, argn(kx, 0))) == U(stored) \
+                and isinstance(stored, ast.Call) and fn_name(stored) == "_impute_default_config"
+            rep.put(okk, "S3", "agreement", "impute_points_to_evaluate: the duplicate test is made on the imputed configuration that is appended", f,
+                    stores[0].ast, "", "the key for the duplicate test is not built from the imputed configuration that is kept")
+    elif ok:
         at = ctx.facts(f).at(app[0][0])
         seen = [a[2] for a in at if a[0] == "in" and a[3] is False]
         # the membership test is on a set local to the function
@@ -185,8 +212,9 @@ def s3(ctx, rep):
         ok = ok and len(loop) == 1 and U(loop[0].ast.iter) == "points_to_evaluate"
         adds = [n.id for n in cfg.nodes if any(isinstance(x, ast.Call) and fn_name(x) == "add" and seen and U(x.func.value) == seen[0] for x in cfg.node_walk(n.id))]
         ok = ok and bool(adds) and cfg.path([s for s, l in cfg.succ[app[0][0]]], loop[0].id, deleted=set(adds), skip_labels=("exc",)) is None
-    rep.put(ok, "S3", "guarded_by", "impute_points_to_evaluate: appended in input order, only if not seen, and recorded as seen", f, None, "",
-            "duplicates among the initial configurations are not removed, or the order is not the given one")
+    if dname is None:
+        rep.put(ok, "S3", "guarded_by", "impute_points_to_evaluate: appended in input order, only if not seen, and recorded as seen", f, None, "",
+                "duplicates among the initial configurations are not removed, or the order is not the given one")
     # what is compared for 'seen' is the configuration that is appended (imputed and cast), not the user's raw entry
     from ..engine import deref
     if len(app) == 1:
@@ -498,8 +526,11 @@ def s6b(ctx, rep):
         for x in cfg.node_walk(nd.id):
             if not (isinstance(x, ast.Call) and fn_name(x) == "append" and U(x.func.value) == lv and x.args):
                 continue
-            n += 1
             v = argn(x, 0)
+            # what is counted are the kinds of value lists that can reach the grid (one per definition of an appended local), not
+            # how many append statements they are spread over
+            n += max(1, len([m for m in cfg.nodes if m.kind == "stmt" and isinstance(m.ast, ast.Assign) and isinstance(v, ast.Name)
+                             and any(U(t_) == v.id for t_ in m.ast.targets)]))
             ok, why = False, U(v)
             if dedup(v):
                 ok = True
@@ -507,7 +538,9 @@ def s6b(ctx, rep):
                 ok, why = True, "FiniteRange.values (lower + k * step, distinct by construction)"
             elif isinstance(v, ast.Name):
                 defs = [m for m in cfg.nodes if m.kind == "stmt" and isinstance(m.ast, ast.Assign) and any(U(t) == v.id for t in m.ast.targets)]
-                good = {m.id for m in defs if dedup(m.ast.value)}
+                fin = lambda m: isinstance(m.ast.value, ast.Attribute) and m.ast.value.attr == "values" and ctx.has_fact(
+                    f, m.id, lambda a: a[0] == "isinstance" and a[2] == "FiniteRange" and a[3] is True)
+                good = {m.id for m in defs if dedup(m.ast.value) or fin(m)}
                 ok = bool(good) and all(m.id in good or cfg.path([s_ for s_, l in cfg.succ[m.id]], nd.id, deleted=good) is None for m in defs)
                 why = " | ".join(U(m.ast.value)[:50] for m in defs)
             rep.put(ok, "S6", "taint", f"GridSearcher._generate_all_candidates_on_grid: value list `{U(v)[:30]}` is de-duplicated before the product", f, x, why,
